@@ -83,6 +83,10 @@ func (n *node) snapshot() (specs []dirSpec, lo linkObs) {
 }
 
 func specKey(d dirSpec) string {
+	if len(d.pid)+len(d.ctx) > 512 {
+		// long protocol IDs / contexts (boundary scenarios): key by digest
+		return fmt.Sprintf("b3:%x|%x|%x|%d", b3([]byte(d.pid)), b3(d.ctx), []byte(d.peer), d.tpt)
+	}
 	return fmt.Sprintf("%q|%x|%x|%d", d.pid, d.ctx, []byte(d.peer), d.tpt)
 }
 
